@@ -34,8 +34,17 @@ def _I():
     return State.interp
 
 
+class LinAlgError(ValueError):
+    """numpy.linalg.LinAlgError (a ValueError)"""
+
+
+_LIB_EXC = {'LinAlgError': LinAlgError}
+
+
 def _raise(name, *args):
-    from .interp import PyRaise, make_exc
+    from .interp import PyRaise, make_exc, ExcVal
+    if name in _LIB_EXC:
+        raise PyRaise(ExcVal(_LIB_EXC[name], list(args)))
     raise PyRaise(make_exc(name, *args))
 
 
@@ -683,7 +692,18 @@ def np_square(x):
 
 
 def np_reciprocal(x):
-    return 1 / _num(x)
+    """np.reciprocal: 1/x for floats; for INTEGER-typed arguments numpy computes the integer reciprocal (1 for 1, -1 for -1,
+    0 otherwise) - the one place where an integer-typed parameter behaves unlike the same float value"""
+    x = _num(x)
+    if isinstance(x, bool):
+        x = int(x)
+    if isinstance(x, int):
+        return 1 if x == 1 else (-1 if x == -1 else 0)
+    if isinstance(x, Sym) and x.t.sort == 'I':
+        return Sym(ir.ite(ir.eq(x.t, 1), 1, ir.ite(ir.eq(x.t, -1), -1, 0)))
+    if isinstance(x, Lane) and x.t.sort == 'I':
+        return x.fresh_like(ir.ite(ir.eq(x.t, 1), 1, ir.ite(ir.eq(x.t, -1), -1, 0)))
+    return 1 / x
 
 
 def np_negative(x):
@@ -1328,6 +1348,26 @@ def np_random_choice(a, size=None, replace=True, p=None):
     raise Unsupported('np.random.choice(%r)' % (a,))
 
 
+def np_random_shuffle(x):
+    """np.random.shuffle(x): permutes x IN PLACE (an effect on the caller's array) and consumes the global generator"""
+    g = RNG.advance('shuffle', [])
+    x = _num(x)
+    if isinstance(x, Lane):
+        if x.owner is not None:
+            State.ctx.event('mutate', x.owner, State.where)
+        x.t = ir.uf('rng.shuffle.elem', [g, x.whole(), values.IDX], x.t.sort)
+        return None
+    raise Unsupported('np.random.shuffle(%r)' % (x,))
+
+
+def np_random_permutation(x):
+    g = RNG.advance('permutation', [])
+    x = _num(x)
+    if isinstance(x, Lane):
+        return Lane(ir.uf('rng.shuffle.elem', [g, x.whole(), values.IDX], x.t.sort), x.n)
+    raise Unsupported('np.random.permutation(%r)' % (x,))
+
+
 def np_random_get_state():
     return Opaque('rng_state', State.rng)
 
@@ -1404,6 +1444,7 @@ NP_RANDOM = Stub('numpy.random', {
     'random': np_random_random, 'random_sample': np_random_random, 'rand': lambda *s: np_random_uniform(0.0, 1.0, s[0] if s else None),
     'exponential': np_random_exponential, 'choice': np_random_choice,
     'get_state': np_random_get_state, 'set_state': np_random_set_state, 'default_rng': _np_random_default_rng,
+    'shuffle': np_random_shuffle, 'permutation': np_random_permutation,
 })
 
 
@@ -2031,7 +2072,8 @@ class KdeObj(object):
     """scipy.stats.gaussian_kde instance: ASSUMED CONTRACT. gaussian_kde(dataset, bw_method, weights): .dataset is
     the (1, n) data, .weights >= 0 summing to 1, .covariance[0,0] = factor(bw_method, n)^2 * weighted variance > 0,
     .evaluate(x) = sum_j w_j * phi((x - x_j)/s)/s with s = sqrt(covariance[0,0]); .logpdf(x) = log(evaluate(x));
-    .resample(size) returns a (1, size) array, consumes only the global numpy generator, and for size >= 2 its draws are not all equal (almost sure)."""
+    .resample(size) returns a (1, size) array, consumes only the global numpy generator, and for size >= 2 its draws are not all equal (almost sure).
+    A dataset with a single distinct value is refused with LinAlgError (singular covariance)."""
     JDX = ir.var('@j', 'I')
 
     def __init__(self, dataset, bw_method, weights):
@@ -2214,6 +2256,16 @@ class _GaussianKde(TypeToken):
         from .interp import PyList
         if isinstance(ds, PyList) and len(ds) == 1 and isinstance(ds[0], GenList):
             ds = ds[0].lane
+        # assumed contract: a dataset with a single distinct value has a singular covariance and is refused
+        if isinstance(ds, Lane):
+            try:
+                k = np_unique(ds).k
+                one = k.t if isinstance(k, Sym) else ir.const(k)
+                if State.ctx.branch(ir.eq(one, 1)):
+                    _raise('LinAlgError', 'The data appears to lie in a lower-dimensional subspace of the space in which it is '
+                           'expressed. This has resulted in a singular data covariance matrix')
+            except Unsupported:
+                pass
         return KdeObj(ds, kwargs.get('bw_method', args[1] if len(args) > 1 else None),
                       kwargs.get('weights', args[2] if len(args) > 2 else None))
 
